@@ -257,6 +257,9 @@ func genC02(c *Ctx) {
 		v2("D", strings.Repeat("u", n), strings.Repeat("p", n), c02Challenge(r), r.Bytes(8), true)
 	}
 
+	// ---- one reading of the clock per response (second boundaries of the wall clock) ----
+	c.Check("c02.authenticate_clock", S("User"), S("Password"), S("DOMAIN"), I(int64(c.N(3, 12))))
+
 	// ---- the Nt/Lm payloads of CreateAuthenticateMessage ----
 	auth := func(flags uint32, sc, ti []byte, user, pw, dom, ws string, model bool) {
 		args := []Val{U(uint64(flags)), B(sc), B(ti), S(user), S(pw), S(dom), S(ws), B(r.Bytes(8)), B(r.Bytes(8))}
